@@ -208,6 +208,9 @@ class JsonSchemaGenerator:
                 break
         for constraint, value, validator in t.__validators__:
             constraint_name = constrains_map.get(constraint, constraint)
+            if constraint_name == 'pattern' and isinstance(value, str):
+                # the regex constraint is a full match; a JSON Schema pattern matches anywhere unless anchored
+                value = f'^(?:{value})$'
             data[constraint_name] = value
 
         extra = getattr(t, 'extra', None)
